@@ -145,26 +145,59 @@ def lift(t):
     return rec(t)
 
 
+def _has_var(e, memo):
+    k = e.get_id()
+    if k in memo:
+        return memo[k]
+    if z3.is_var(e):
+        r = True
+    elif z3.is_quantifier(e):
+        r = False
+    else:
+        r = any(_has_var(c, memo) for c in e.children())
+    memo[k] = r
+    return r
+
+
 def libm_axioms(terms):
-    """Instances of A-LIBM for every application occurring in the given terms."""
+    """Instances of A-LIBM for every ground application occurring in the given terms; for applications
+    under a quantifier (arguments with bound variables) the universally quantified axiom with the
+    application as trigger is added instead."""
     out = []
     seen = set()
+    memo = {}
+    generic = set()
+    xq = z3.Real("x!libm")
+
+    def inst(nm, e, a):
+        if nm == "c_exp":
+            return [e > 0, z3.Implies(a > 0, e > 1), z3.Implies(a < 0, e < 1), z3.Implies(a == 0, e == 1)]
+        if nm == "c_sinh":
+            return [z3.Implies(a > 0, e > 0), z3.Implies(a < 0, e < 0), z3.Implies(a == 0, e == 0)]
+        if nm == "c_cosh":
+            return [e >= 1]
+        if nm == "c_sqrt":
+            return [e >= 0, z3.Implies(a >= 0, e * e == a), z3.Implies(a > 0, e > 0)]
+        return []
 
     def walk(e):
         if e.get_id() in seen:
             return
         seen.add(e.get_id())
+        if z3.is_quantifier(e):
+            walk(e.body())
+            return
         if z3.is_app(e) and e.decl().kind() == z3.Z3_OP_UNINTERPRETED and e.num_args() == 1:
             nm = e.decl().name()
-            a = e.arg(0)
-            if nm == "c_exp":
-                out.extend([e > 0, z3.Implies(a > 0, e > 1), z3.Implies(a < 0, e < 1), z3.Implies(a == 0, e == 1)])
-            elif nm == "c_sinh":
-                out.extend([z3.Implies(a > 0, e > 0), z3.Implies(a < 0, e < 0), z3.Implies(a == 0, e == 0)])
-            elif nm == "c_cosh":
-                out.append(e >= 1)
-            elif nm == "c_sqrt":
-                out.extend([e >= 0, z3.Implies(a >= 0, e * e == a)])
+            if nm in ("c_exp", "c_sinh", "c_cosh", "c_sqrt"):
+                if _has_var(e, memo):
+                    if nm not in generic:
+                        generic.add(nm)
+                        app = e.decl()(xq)
+                        body = inst(nm, app, xq)
+                        out.append(z3.ForAll([xq], z3.And(*body), patterns=[app]))
+                else:
+                    out.extend(inst(nm, e, e.arg(0)))
         for c in e.children():
             walk(c)
     for t in terms:
